@@ -920,18 +920,20 @@ impl Planner {
             return Ok((empty_op, columns));
         }
 
-        // Try to use property index for equality predicates on indexed properties
-        if let Some(result) = self.try_plan_filter_with_property_index(filter)? {
-            return Ok(result);
-        }
+        // Try to use property index for equality predicates on indexed properties,
+        // then range optimization for range predicates (>, <, >=, <=). An access path
+        // only narrows the candidates: it may have recognised just some conjuncts of
+        // the predicate, so the whole predicate is still applied on top of it.
+        let access_path = match self.try_plan_filter_with_property_index(filter)? {
+            Some(result) => Some(result),
+            None => self.try_plan_filter_with_range_index(filter)?,
+        };
 
-        // Try to use range optimization for range predicates (>, <, >=, <=)
-        if let Some(result) = self.try_plan_filter_with_range_index(filter)? {
-            return Ok(result);
-        }
-
-        // Plan the input operator first
-        let (input_op, columns) = self.plan_operator(&filter.input)?;
+        // Otherwise plan the input operator
+        let (input_op, columns) = match access_path {
+            Some(result) => result,
+            None => self.plan_operator(&filter.input)?,
+        };
 
         // Build variable to column index mapping
         let variable_columns: HashMap<String, usize> = columns
